@@ -134,10 +134,16 @@ class HeartbeatManager(Generic[comms.Hdr]):
         if self._socket.is_connected:
             _LOGGER.debug("Sending heartbeat message")
 
-            await self._socket.send(
-                message=self._config.message,
-                retry_policy=pyairtouch.comms.socket.RETRY_CONNECTED,
-            )
+            try:
+                await self._socket.send(
+                    message=self._config.message,
+                    retry_policy=pyairtouch.comms.socket.RETRY_CONNECTED,
+                )
+            except pyairtouch.comms.socket.QueueOverflowError:
+                # The socket still has a backlog of messages to send (e.g. just
+                # after a re-connection). Skip this heartbeat: the exception
+                # must not end the heartbeat loop.
+                _LOGGER.debug("Message queue is full, heartbeat not sent")
 
     async def _heartbeat_timeout_loop(self) -> None:
         """The heartbeat timeout loop implementation.
